@@ -189,6 +189,8 @@ func TestC02(t *testing.T) {
 			"intent2":  h.ActIntent,
 			"produce":  h.ActProduce,
 			"produce2": h.ActProduce,
+			// missed slots, finished ticks and epochs (stored consensus points, reward updates)
+			"skipAhead": func() { h.Produce(c.Int("skipAhead", 4, 90)) },
 		}, nil)
 		for i := 0; i < 2 && !h.Dead; i++ {
 			h.Produce(0)
@@ -268,6 +270,11 @@ func TestC02(t *testing.T) {
 				}
 			}
 			compareNodes(c, "C02", h.A, f.n, sample)
+			// consensus statistics (what reward updates are computed from) and schedules, read back by a node that
+			// was restarted on its consensus database or recomputed them cold
+			if d := sim.DiffBattery(sim.ConsensusSummary(h.A), sim.ConsensusSummary(f.n)); d != "" {
+				c.Failf("C02/consensus", "consensus statistics / schedule differ between the producer and %s: %s", f.name, d)
+			}
 			// re-delivery of everything changes nothing
 			before := f.n.Dump()
 			if top > 1 {
